@@ -2108,11 +2108,14 @@ func c14Query(tax *obitax.Taxonomy, ref *c14Ref, f []string, fail func(sig, form
 				}
 			}
 			if len(present) > 0 {
+				stat("wlo:positive")
 				if exp := ref.deepest(present); len(l) != 1 || l[0] != exp {
-					stat("finding:wl-dup-order")
-					if os.Getenv("VERIF_C14_FINDINGS") != "" {
-						fail("wlo.order", "Taxonomy.LCA(…, 1.0) answers %v depending on the map iteration order, the tree implies %d", l, exp)
-					}
+					fail("wlo.order", "Taxonomy.LCA(…, 1.0) answers %v over the map iteration orders, the tree implies the single answer %d", l, exp)
+				}
+			} else if len(m) > 0 {
+				stat("wlo:all-zero")
+				if len(l) != 1 || l[0] != ref.root {
+					fail("wlo.order", "Taxonomy.LCA(…, 1.0) on an all-zero map answers %v over the map iteration orders, expected the root %d", l, ref.root)
 				}
 			}
 		}
